@@ -474,7 +474,7 @@ def run(ctx, report: Report) -> None:
     default_button_table(ctx, r3)
 
     # ---- R5 (the whole pipeline by interpretation, bounded) --------------------------------------------------------------
-    r5 = report.rule('C04-R5', 'a compiled selector answers the same after any sequence of other queries (bounded)', floor=4)
+    r5 = report.rule('C04-R5', 'a compiled selector answers the same after any sequence of other queries (bounded)', floor=5)
     from .e2ematch import history_table
     history_table(ctx, r5)
 
